@@ -358,6 +358,22 @@ func (r *Run) Finish() int {
 		"observed":            observed,
 		"explanation":         r.Rule,
 	}
+	osets := map[string][]string{}
+	for k, v := range r.sets {
+		if len(v) <= 160 {
+			var m []string
+			for x := range v {
+				if len(x) <= 80 {
+					m = append(m, x)
+				}
+			}
+			sort.Strings(m)
+			if len(m) == len(v) {
+				osets[k] = m
+			}
+		}
+	}
+	cov["observed_sets"] = osets
 	if len(r.samples) == 0 {
 		cov["samples"] = []any{"(no sample recorded)"}
 	}
